@@ -36,6 +36,7 @@ ACTIONS = ["Pool_Start", "Pool_Execute", "Pool_Stop", "Pool_DropBegin", "Pool_Dr
 SENSITIVITY = [
     ("MC_ThreadPool_dev_DropJoinsRecovery.cfg", "DropJoinsRecovery", "temporal", "CallerNeverBlocks"),
     ("MC_ThreadPool_dev_DropJoinsRecovery_exit.cfg", "DropJoinsRecovery", "temporal", "AllWorkersExit"),
+    ("MC_ThreadPool_dev_RestartSharesHandles.cfg", "RestartSharesHandles", "temporal", "CallerNeverBlocks"),
     ("MC_ThreadPool_dev_RunUnderLock.cfg", "RunUnderLock", "invariant", "LockNotHeldWhileRunning"),
     ("MC_ThreadPool_dev_RunUnderLock_poison.cfg", "RunUnderLock", "invariant", "NeverPoisoned"),
     ("MC_ThreadPool_dev_RunUnderLock_isolated.cfg", "RunUnderLock", "invariant", "NoPrematureExit"),
@@ -54,6 +55,8 @@ WITNESSES = [  # Gen cfg, what the schedule shows
     ("Gen_ThreadPool_wit_drop_busy_nostop.cfg", "drop without stop while a task runs and another is queued"),
     ("Gen_ThreadPool_wit_stop_busy.cfg", "after stop one worker has consumed the Shutdown while another runs a task and a third sits in recv"),
     ("Gen_ThreadPool_wit_respawn_after_drop.cfg", "the recovery thread respawns a worker whose handle Drop has already taken"),
+    ("Gen_ThreadPool_wit_old_panic_after_restart.cfg", "restart: a task of the first start panics after the second start; its recovery thread is about to join it while the new generation works"),
+    ("Gen_ThreadPool_wit_two_generations_run.cfg", "restart without stop: tasks of both generations run at the same time"),
 ]
 
 
@@ -71,20 +74,22 @@ def par(jobs, conc):
 # behaviours from TLC
 # ------------------------------------------------------------------------------------------------
 
-def obs_of_state(st, n):
-    return {"cpc": st["cpc"], "wpc": [st["wpc"][str(i)] for i in range(n)] if isinstance(st["wpc"], dict) else st["wpc"],
-            "ran": st["ran"], "done": st["done"]}
+def obs_of_state(st, n, gens):
+    def per_gen(f):     # TLC dumps a function over 1..G as a list, over 0..N-1 as an object
+        rows = f if isinstance(f, list) else [f[str(g)] for g in range(1, gens + 1)]
+        return [[r[str(i)] for i in range(n)] if isinstance(r, dict) else r for r in rows]
+    return {"cpc": st["cpc"], "wpc": per_gen(st["wpc"]), "ran": st["ran"], "done": st["done"]}
 
 
-def behaviour_from_dump(path, n, tasks):
+def behaviour_from_dump(path, n, tasks, gens):
     d = json.load(open(path))
     states = [s[1] for s in d["counterexample"]["state"]]
     pan_set = set(states[0]["pan"])
     steps = []
     for st in states[1:]:
         lab = st["hist"][0]
-        steps.append({"a": lab["a"], "w": lab["w"], "x": lab["x"], "s": obs_of_state(st, n)})
-    return {"n": n, "tasks": tasks, "pan": [t in pan_set for t in range(1, tasks + 1)], "complete": False, "steps": steps}
+        steps.append({"a": lab["a"], "g": lab["g"], "w": lab["w"], "x": lab["x"], "s": obs_of_state(st, n, gens)})
+    return {"n": n, "tasks": tasks, "gens": gens, "pan": [t in pan_set for t in range(1, tasks + 1)], "complete": False, "steps": steps}
 
 
 def cfg_consts(cfg):
@@ -93,7 +98,12 @@ def cfg_consts(cfg):
     return int(re.search(r"N = (\d+)", txt).group(1)), int(re.search(r"MaxTasks = (\d+)", txt).group(1))
 
 
-def edge_cover_paths(edges, n, tasks, limit, rng):
+def cfg_gens(cfg):
+    import re
+    return int(re.search(r"G = (\d+)", open(os.path.join(D, cfg)).read()).group(1))
+
+
+def edge_cover_paths(edges, n, tasks, limit, rng, gens=1):
     """edges: list of {s, l, t} printed by TLC for the complete graph. Returns (behaviours, n_edges, n_covered, n_states).
     Paths start in an initial state and end in a final state; each path greedily maximises the number of not yet
     covered edges (dynamic programme over the acyclic graph, refreshed every 40 paths)."""
@@ -116,7 +126,7 @@ def edge_cover_paths(edges, n, tasks, limit, rng):
     seen = set()
     for e in edges:
         u, v = nid(e["s"]), nid(e["t"])
-        lab = (e["l"]["a"], e["l"]["w"], e["l"]["x"])
+        lab = (e["l"]["a"], e["l"]["g"], e["l"]["w"], e["l"]["x"])
         if (u, lab, v) in seen:
             continue
         seen.add((u, lab, v))
@@ -174,21 +184,22 @@ def edge_cover_paths(edges, n, tasks, limit, rng):
             for (a, j) in path:
                 lab, v = adj[a][j]
                 t = states[v]
-                steps.append({"a": lab[0], "w": lab[1], "x": lab[2],
+                steps.append({"a": lab[0], "g": lab[1], "w": lab[2], "x": lab[3],
                               "s": {"cpc": t["cpc"], "wpc": t["wpc"], "ran": t["ran"], "done": t["done"]}})
-            paths.append({"n": n, "tasks": tasks, "pan": first["pan"], "complete": True, "steps": steps})
+            paths.append({"n": n, "tasks": tasks, "gens": gens, "pan": first["pan"], "complete": True, "steps": steps})
     return paths, n_edges, len(covered), len(states)
 
 
 def beh_key(b):
     h = hashlib.sha1()
-    h.update(json.dumps([b["n"], b["pan"], [(s["a"], s["w"], s["x"]) for s in b["steps"]]]).encode())
+    h.update(json.dumps([b["n"], b["pan"], b.get("finish"), [(s["a"], s.get("g", 1), s["w"], s["x"]) for s in b["steps"]]]).encode())
     return h.hexdigest()
 
 
 def beh_str(b):
     return "N=%d panicking=%s: " % (b["n"], [i + 1 for i, p in enumerate(b["pan"]) if p]) + " ".join(
-        "%s(%s)" % (s["a"], ",".join(str(v) for v in ([s["w"]] if s["w"] >= 0 else []) + [s["x"]])) for s in b["steps"])
+        "%s(%s)" % (s["a"], ",".join(str(v) for v in (["g%d" % s.get("g", 1)] if b.get("gens", 1) > 1 else []) +
+                                       ([s["w"]] if s["w"] >= 0 else []) + [s["x"]])) for s in b["steps"])
 
 
 # ------------------------------------------------------------------------------------------------
@@ -285,16 +296,20 @@ def _run(ctx, thorough, pool_bin, work, rng, replay):
                     f.write(old)
     # ---------------------------------------------------------------- 1. model checking
     if thorough:
-        mcs = [("MC_ThreadPool_thorough_n3t4.cfg", 4), ("MC_ThreadPool_thorough_n3.cfg", 2),
-               ("MC_ThreadPool_thorough_n2.cfg", 2), ("MC_ThreadPool_thorough_n1.cfg", 1)]
+        mcs = [("MC_ThreadPool_thorough_n3t4.cfg", 4), ("MC_ThreadPool_thorough_g2n2.cfg", 4), ("MC_ThreadPool_thorough_n3.cfg", 2),
+               ("MC_ThreadPool_thorough_n2.cfg", 2), ("MC_ThreadPool_thorough_g2n1.cfg", 2), ("MC_ThreadPool_thorough_g3n1.cfg", 2),
+               ("MC_ThreadPool_thorough_n1.cfg", 1)]
     else:
-        mcs = [("MC_ThreadPool_quick_n2t3.cfg", 3), ("MC_ThreadPool_quick_n2.cfg", 2), ("MC_ThreadPool_quick_n1.cfg", 1)]
+        mcs = [("MC_ThreadPool_quick_g2n2.cfg", 4), ("MC_ThreadPool_quick_n2t3.cfg", 2), ("MC_ThreadPool_quick_g2n1.cfg", 1),
+               ("MC_ThreadPool_quick_n2.cfg", 1), ("MC_ThreadPool_quick_n1.cfg", 1)]
     # the exhaustive runs go on in the background while the harness phases run (they need little CPU)
-    bg = concurrent.futures.ThreadPoolExecutor(max_workers=4)
+    bg = concurrent.futures.ThreadPoolExecutor(max_workers=3)
     mc_futs = {cfg: bg.submit(lambda cfg=cfg, w=w: run_tlc("MC_ThreadPool.tla", cfg, D, workers=w, coverage=True, timeout=5400,
                                                            heap="8g", work_id="c08-" + cfg[:-4])) for cfg, w in mcs}
     jobs = []
-    for cfg, dev, kind, name in SENSITIVITY:
+    sens = SENSITIVITY + ([("MC_ThreadPool_dev_RestartSharesHandles_isolated.cfg", "RestartSharesHandles", "temporal", "PanicIsolated")]
+                          if thorough else [])
+    for cfg, dev, kind, name in sens:
         jobs.append((("dev", cfg), (lambda cfg=cfg: run_tlc("MC_ThreadPool.tla", cfg, D, workers=1, timeout=600, work_id="c08-" + cfg[:-4]))))
     jobs.append((("nopar", "x"), lambda: run_tlc("MC_ThreadPool.tla", "MC_ThreadPool_dev_RunUnderLock_par.cfg", D, workers=1, timeout=600,
                                                   work_id="c08-nopar")))
@@ -307,7 +322,7 @@ def _run(ctx, thorough, pool_bin, work, rng, replay):
                                                                         work_id="c08-" + cfg[:-4], extra=["-dumpTrace", "json", dump]))))
     res = par(jobs, 4 if thorough else 6)
 
-    for cfg, dev, kind, name in SENSITIVITY:
+    for cfg, dev, kind, name in sens:
         r = res[("dev", cfg)]
         ctx.add_tlc("sensitivity: Dev={%s} must violate %s" % (dev, name), r)
         if r.violation != kind or (r.violated_name and r.violated_name != name):
@@ -333,18 +348,24 @@ def _run(ctx, thorough, pool_bin, work, rng, replay):
         if r.violation != "invariant":
             raise vlib.ToolError("witness %s not reachable in the model (%s)" % (cfg, r.violation))
         n, t = cfg_consts(cfg)
-        b = behaviour_from_dump(os.path.join(work, cfg[:-4] + ".json"), n, t)
-        origin[beh_key(b)] = "witness: " + what
-        behaviours.append(b)
+        b = behaviour_from_dump(os.path.join(work, cfg[:-4] + ".json"), n, t, cfg_gens(cfg))
+        # the schedule ends where the witness state is reached; the lifecycle is then finished freely, once
+        # with stop + drop and once with drop alone (the rest of the run is judged by the trace validation)
+        for fin in ("drop", "stop"):
+            bb = dict(b)
+            bb["finish"] = fin
+            origin[beh_key(bb)] = "witness: " + what + " (then " + ("stop, drop" if fin == "stop" else "drop") + ")"
+            behaviours.append(bb)
     n_wit = len(behaviours)
 
     # (cfg, maximal number of paths): thorough covers every edge of the N=1/3-task and N=2/2-task graphs
     edge_cfgs = [("Gen_ThreadPool_edges_n1.cfg", 100000 if thorough else 300), ("Gen_ThreadPool_edges_quick.cfg", 100000 if thorough else 400)]
     if thorough:
         edge_cfgs.append(("Gen_ThreadPool_edges_thorough.cfg", 2000))
+        edge_cfgs.append(("Gen_ThreadPool_edges_g2.cfg", 1500))     # two starts
     ejobs = [(cfg, (lambda cfg=cfg: run_tlc("Gen_ThreadPool.tla", cfg, D, workers=1, timeout=1500, heap="8g", work_id="c08-" + cfg[:-4])))
              for cfg, _ in edge_cfgs]
-    sims = [("Gen_ThreadPool_sim.cfg", 2000 if thorough else 300)]
+    sims = [("Gen_ThreadPool_sim.cfg", 2000 if thorough else 250), ("Gen_ThreadPool_sim_g2.cfg", 1500 if thorough else 150)]
     if thorough:
         sims.append(("Gen_ThreadPool_sim_n3.cfg", 1000))
     for cfg, num in sims:
@@ -358,8 +379,8 @@ def _run(ctx, thorough, pool_bin, work, rng, replay):
             raise vlib.ToolError("edge dump %s failed: %s" % (cfg, g.out[-1500:]))
         ctx.add_tlc("state graph dump %s" % cfg, g)
         n, t = cfg_consts(cfg)
-        paths, n_edges, n_cov, n_states = edge_cover_paths(g.prints, n, t, limit, rng)
-        cover[cfg] = {"N": n, "tasks": t, "states": n_states, "edges": n_edges, "edges_covered": n_cov, "paths": len(paths)}
+        paths, n_edges, n_cov, n_states = edge_cover_paths(g.prints, n, t, limit, rng, cfg_gens(cfg))
+        cover[cfg] = {"N": n, "tasks": t, "starts": cfg_gens(cfg), "states": n_states, "edges": n_edges, "edges_covered": n_cov, "paths": len(paths)}
         for b in paths:
             origin.setdefault(beh_key(b), "edge cover " + cfg)
         behaviours += paths
@@ -406,6 +427,7 @@ def _run(ctx, thorough, pool_bin, work, rng, replay):
     shapes = 0
     monitored = 0
     barriers = 0
+    restarts = 0
     hangs = []
     for i, (runs, maxn, maxt) in enumerate(chunks):
         tf = os.path.join(work, "random-%d.ndjson" % i)
@@ -419,6 +441,7 @@ def _run(ctx, thorough, pool_bin, work, rng, replay):
         shapes = max(shapes, s["distinct_shapes"])
         monitored += s.get("monitored_runs", 0)
         barriers += s.get("barrier_runs", 0)
+        restarts += s.get("restart_runs", 0)
         fingerprints.update(s["fingerprints"])
         rfiles.append(tf)
         if i == 0:
@@ -462,14 +485,14 @@ def _run(ctx, thorough, pool_bin, work, rng, replay):
         ctx.violation("recorded run not explained by ThreadPool.tla at record %s: %s; model state before it: %s" % (
             pos, json.dumps(rej["context"][-1]) if rej else "?", json.dumps(st)),
             {"kind": "trace", "rejected_at": pos - start, "model_state": st, "log": lines[start:pos + 5]})
-    ctx.add_part("randomised real runs", runs=total_runs, events=total_events, lifecycle_shapes=shapes, runs_with_monitor_stream=monitored, barrier_runs_n_tasks_waiting_for_each_other=barriers,
+    ctx.add_part("randomised real runs", runs=total_runs, events=total_events, lifecycle_shapes=shapes, runs_with_monitor_stream=monitored, barrier_runs_n_tasks_waiting_for_each_other=barriers, runs_with_restart=restarts,
                  distinct_interleavings=len(fingerprints), hangs=len(hangs))
 
     # ---------------------------------------------------------------- the exhaustive runs started at the beginning
     for cfg, w in mcs:
         r = mc_futs[cfg].result()
         n, t = cfg_consts(cfg)
-        ctx.add_tlc("exhaustive N=%d tasks<=%d all panic subsets all scripts, Dev={} (%s)" % (n, t, cfg), r)
+        ctx.add_tlc("exhaustive N=%d tasks<=%d starts<=%d all panic subsets all scripts, Dev={} (%s)" % (n, t, cfg_gens(cfg), cfg), r)
         ctx.require_tlc_ok(cfg, r)
         if r.violation is None:
             ctx.require_cover(cfg, r, ACTIONS)
